@@ -46,6 +46,14 @@ class Sym:
     pass
 
 
+class SMsg(Sym):
+    """a formatted text with symbolic ingredients whose content is not modelled: only fit to be carried by an exception or
+    printed; every other use (comparison, concatenation, slicing, truth value) is `undecided`"""
+
+    def __repr__(self):
+        return "<formatted text>"
+
+
 class SInt(Sym):
     __slots__ = ("t",)
 
